@@ -475,6 +475,12 @@ func (c *UConn) clientHandshake(ctx context.Context) (err error) {
 			}
 		}
 
+		// A session taken from the cache belongs to the name it was stored under: it
+		// is never sent to another one, whether or not certificates are verified.
+		if session != nil && c.sessionLoadedFor != "" && c.sessionLoadedFor != c.clientSessionCacheKey() {
+			return fmt.Errorf("tls: the server name was changed to %q after a cached session for %q had been attached to the ClientHello", c.clientSessionCacheKey(), c.sessionLoadedFor)
+		}
+
 		if c.HandshakeState.State13.EarlySecret != nil && session != nil {
 			cipherSuite := cipherSuiteTLS13ByID(session.cipherSuite)
 			earlySecret = tls13.NewEarlySecretFromSecret(cipherSuite.hash.New, c.HandshakeState.State13.EarlySecret)
